@@ -122,6 +122,17 @@ func (b *Broker) Register() {
 	iscp.VerifRegisterDialer(TransportName, func() transport.Dialer { return dialer{b} })
 }
 
+// RegisterIndirect registers, once, a dialer that asks `current` for the broker at dial time: a workload that uses one broker
+// after another does not write the library's dialer registry (a plain map, written only at init time in production) while
+// connections of an earlier round may still be reading it.
+func RegisterIndirect(current func() *Broker) {
+	iscp.VerifRegisterDialer(TransportName, func() transport.Dialer { return indirectDialer{current} })
+}
+
+type indirectDialer struct{ current func() *Broker }
+
+func (d indirectDialer) Dial(c transport.DialConfig) (transport.Transport, error) { return d.current().dial(c) }
+
 func (b *Broker) dial(c transport.DialConfig) (transport.Transport, error) {
 	b.mu.Lock()
 	b.Dials++
